@@ -374,10 +374,16 @@ def emitter_own(ctx: Ctx, rule="R-C17-EMITTER-OWN") -> None:
               instance="processor emitter source")
     cp = ctx.func("repid.connection.Connection.__post_init__")
     st = [n for n in ast.walk(cp.node) if isinstance(n, ast.Assign) and any(isinstance(t, ast.Attribute) and t.attr == "_signal_emitter" for t in n.targets)]
-    ok = len(st) == 1 and dotted(st[0].value) == "self.middleware.emit_signal"
+    three = ("message_broker", "args_bucket_broker", "results_bucket_broker")
+    ok = bool(st) and all(dotted(x.value) == "self.middleware.emit_signal" for x in st)
     loops = [n for n in ast.walk(cp.node) if isinstance(n, ast.For) and st and any(x is st[0] for x in ast.walk(n))]
-    srcs = " ".join(unparse(x) for _, x in C.deep_defs(ctx, cp, loops[0].iter)) if len(loops) == 1 else ""  # the collection may come from a helper
-    ok = ok and len(loops) == 1 and all(nm in srcs for nm in ("message_broker", "args_bucket_broker", "results_bucket_broker"))
+    if len(st) == 1 and len(loops) == 1:
+        srcs = " ".join(unparse(x) for _, x in C.deep_defs(ctx, cp, loops[0].iter))  # the collection may come from a helper
+        ok = ok and all(nm in srcs for nm in three)
+    else:
+        # written out (or a loop over a literal list, read as unrolled): one store per broker
+        bases = {dotted(t.value) for x in st for t in x.targets if isinstance(t, ast.Attribute)}
+        ok = ok and bases == {f"self.{nm}" for nm in three}
     ctx.check(ok, rule, cp, "Connection gives its middleware's emitter to all three brokers", "every broker emits to its own connection", "Connection.__post_init__ does not set the emitter "
               "of its own middleware on all three brokers", instance="connection emitter wiring")
     conn = ctx.prog.cls("repid.connection.Connection")
